@@ -87,6 +87,10 @@ CHECKS = {
             "13 776 fold placements and 56 280 (thorough 258 048) rewrite compositions: the variant's canonical snapshot (incl. zone key and UTC offset of every date-time) and its re-serialisation must equal those of the base text. "
             "Seeds cover every name-sensitive parse path (TZID on DTSTART/DTEND/DUE/RECURRENCE-ID/RDATE/EXDATE/FREEBUSY, custom VTIMEZONE defined before use, CATEGORIES, alarms, unknown components, non-ASCII long lines, quoted parameters).",
             "trusted: the line re-caser/refolder in checks/c09.py; folds only between characters; str inputs starting with U+FEFF excluded", "3/C09"),
+    "C11": ("exhaustive sweep of every zone id of each provider x wall times derived from the zone's own transitions (read independently from TZif files / the provider table) x value shapes x tzinfo sources, round-tripped through the real serialiser and parser and compared with the provider library's own offset",
+            "Every zoneinfo and pytz zone id (read at run time) x each transition instant -1s/0/+1s in the old and the new offset, mid-points and 8 fixed times (quick: first/last three transitions of 1970-2037; thorough: all of 1900-2100) x "
+            "{DTSTART, RDATE list, RDATE period, FREEBUSY explicit/by-duration period, period spanning the transition} x tzinfo from zoneinfo/pytz/dateutil x both providers; DTSTAMP/CREATED/LAST-MODIFIED/ACKNOWLEDGED via add and descriptors: emitted line, parsed wall time, zone key and provider-assigned offset.",
+            "trusted: refmodel/rfc_tz.py TZif reader (self-validated against zoneinfo per zone at run time; a disagreement is a harness error), the provider library as ground truth for its own offsets", "3/C11"),
 }
 REASON_PENDING = "check under construction in this session; not claimed until it has been built, silenced on the unchanged tree and shown to detect a seeded change"
 ALL = [f"C{i:02d}" for i in range(1, 21)]
